@@ -20,7 +20,19 @@ import registry  # noqa: E402
 
 
 def build_and_audit(pid):
-    """returns (theorem_status: dict name -> 'ok' | reason, notes)"""
+    """returns (theorem_status: dict name -> 'ok' | reason, notes); serialised across concurrently
+    running checks (facts regeneration and `lake build` write into the same tree)"""
+    import fcntl
+    lock_path = os.path.join(common.LEAN_DIR, ".build.lock")
+    with open(lock_path, "w", encoding="utf-8") as lock:
+        fcntl.flock(lock, fcntl.LOCK_EX)
+        try:
+            return _build_and_audit(pid)
+        finally:
+            fcntl.flock(lock, fcntl.LOCK_UN)
+
+
+def _build_and_audit(pid):
     notes = []
     try:
         facts = common.regenerate_facts()
